@@ -1998,6 +1998,83 @@ Section Flat.
     { unfold fresh_items. apply forallb_forall. intros x _. destruct x as [c|[|n args]| | | |]; reflexivity. }
     rewrite (HF stk fuel Hd Hf Hfu). rewrite (HF [FTitle] fuel ltac:(cbn; lia) Hfresh0 Hfu). split; reflexivity.
   Qed.
+  (** ... and of a page that is one #if / #ifeq / #switch call with calls inside (C08) *)
+  Lemma single_call_anywhere args r F (P : list frame -> Prop) :
+    (forall stk ea fuel, P stk -> (F <= fuel)%nat -> expand_T fuel stk ea args = Some r) ->
+    forall stk fuel, P stk -> P [FTitle] -> (S (S F) <= fuel)%nat ->
+      expand_recurse fuel stk true [T args] = expand_recurse fuel [FTitle] true [T args] /\
+      expand_recurse fuel stk true [T args] = Some r.
+  Proof.
+    intros HF stk fuel Hs H0 Hf. destruct fuel as [|f]; [lia|]. destruct f as [|f]; [lia|].
+    assert (E : forall st, P st -> expand_recurse (S (S f)) st true [T args] = Some r).
+    { intros st Hst.
+      change (expand_recurse (S (S f)) st true [T args])
+        with (match expand_recurse (S f) st true [] with
+              | None => None
+              | Some rest' => match expand_T (S f) st true args with
+                              | Some t => Some (t ++ rest') | None => None end
+              end).
+      rewrite (HF st true (S f) Hst) by lia. cbn [Expand.expand_recurse]. rewrite app_nil_r. reflexivity. }
+    rewrite (E stk Hs), (E [FTitle] H0). split; reflexivity.
+  Qed.
+
+  Lemma fresh_at_title (more : list enc) : forallb (fresh_items [FTitle]) more = true.
+  Proof.
+    apply forallb_forall. intros e _. unfold fresh_items. apply forallb_forall. intros x _.
+    destruct x as [c|[|n args]| | | |]; reflexivity.
+  Qed.
+
+  Theorem preprocess_if_anywhere cond more :
+    FlatCall.if_calls_ok pfnames lib cond more = true -> o_parserfns opts = true -> o_tfn opts = [] -> o_pfn opts = [] ->
+    exists F, forall stk fuel, (length stk < 98)%nat -> forallb (fresh_items stk) more = true -> (F <= fuel)%nat ->
+      expand_recurse fuel stk true [T ((if_head ++ cond) :: more)]
+      = expand_recurse fuel [FTitle] true [T ((if_head ++ cond) :: more)] /\
+      expand_recurse fuel stk true [T ((if_head ++ cond) :: more)] = Some (FlatCall.if_calls_result lib cond more).
+  Proof.
+    intros Hok Hpf Htfn Hpfn. destruct (if_calls cond more Hok Hpf Htfn Hpfn) as [F HF].
+    exists (S (S F)). intros stk fuel Hd Hfr Hf.
+    apply (single_call_anywhere _ _ F (fun st => (length st < 98)%nat /\ forallb (fresh_items st) more = true)).
+    - intros st ea fu [H1 H2] Hfu. apply HF; assumption.
+    - split; assumption.
+    - split; [cbn; lia | apply fresh_at_title].
+    - exact Hf.
+  Qed.
+
+  Theorem preprocess_ifeq_anywhere x more :
+    FlatCall.ifeq_calls_ok pfnames lib x more = true -> o_parserfns opts = true -> o_tfn opts = [] -> o_pfn opts = [] ->
+    exists F, forall stk fuel, (length stk < 98)%nat -> forallb (fresh_items stk) more = true -> (F <= fuel)%nat ->
+      expand_recurse fuel stk true [T ((ifeq_head ++ x) :: more)]
+      = expand_recurse fuel [FTitle] true [T ((ifeq_head ++ x) :: more)] /\
+      expand_recurse fuel stk true [T ((ifeq_head ++ x) :: more)] = Some (FlatCall.ifeq_calls_result lib x more).
+  Proof.
+    intros Hok Hpf Htfn Hpfn. destruct (ifeq_calls x more Hok Hpf Htfn Hpfn) as [F HF].
+    exists (S (S F)). intros stk fuel Hd Hfr Hf.
+    apply (single_call_anywhere _ _ F (fun st => (length st < 98)%nat /\ forallb (fresh_items st) more = true)).
+    - intros st ea fu [H1 H2] Hfu. apply HF; assumption.
+    - split; assumption.
+    - split; [cbn; lia | apply fresh_at_title].
+    - exact Hf.
+  Qed.
+
+  Theorem preprocess_switch_anywhere x cases :
+    plain x = true -> forallb (FlatCall.case_calls_ok pfnames lib) cases = true ->
+    o_parserfns opts = true -> o_tfn opts = [] -> o_pfn opts = [] ->
+    exists F, forall stk fuel, (length stk < 98)%nat -> forallb (fun kv => fresh_items stk (snd kv)) cases = true ->
+      (F <= fuel)%nat ->
+      expand_recurse fuel stk true [T ((switch_head ++ x) :: map mkcase cases)]
+      = expand_recurse fuel [FTitle] true [T ((switch_head ++ x) :: map mkcase cases)] /\
+      expand_recurse fuel stk true [T ((switch_head ++ x) :: map mkcase cases)]
+      = Some (add_newline (FlatCall.switch_calls_result lib (strip_i x) cases None)).
+  Proof.
+    intros Hx Hok Hpf Htfn Hpfn. destruct (switch_calls x cases Hx Hok Hpf Htfn Hpfn) as [F HF].
+    exists (S (S F)). intros stk fuel Hd Hfr Hf.
+    apply (single_call_anywhere _ _ F (fun st => (length st < 98)%nat /\ forallb (fun kv => fresh_items st (snd kv)) cases = true)).
+    - intros st ea fu [H1 H2] Hfu. apply HF; assumption.
+    - split; assumption.
+    - split; [cbn; lia |]. apply forallb_forall. intros kv _. unfold fresh_items. apply forallb_forall. intros y _.
+      destruct y as [c|[|n args]| | | |]; reflexivity.
+    - exact Hf.
+  Qed.
 End Flat.
 
 (** The deviation the code is known to have (c04:trailing-newline-dropped) is exactly the gap between the two
